@@ -15,7 +15,7 @@ META = {
         "helpers (not_full, with_push, with_replace, push_onto, replace_on, with_stack_push, with_stack_discard, map_err_into, Error::fatal/recoverable/map_inner_err, StatefulError::new) "
         "and the StackError variant each Stack primitive can construct; (R02.3) every Error::fatal/recoverable in the instruction set carries the instruction's own state value (never a "
         "clone, default or rebuilt state); (R02.4) recovery wiring: try_recover maps Recoverable -> Ok(into_state), Fatal -> Err; into_state unboxes the carried state; run_to_completion "
-        "applies try_recover()? to every perform result and counts the step on both the Ok and the recovered edge. NOT decided: byte equality of the output buffer's internals (Cursor trusted)."),
+        "applies try_recover()? to every perform result and counts the step on both the Ok and the recovered edge. NOT decided: byte equality of the output buffer's internals (Cursor trusted). R02.4 additionally pins the error value's own accessors (Error::is_recoverable/is_fatal answer for their own variant, state()/error() return the carried fields) and the RecoverableError form of try_recover."),
     "rules": {
         "R02.1": "no mutation before any failure point, on the boundary grid, for all 88 instructions",
         "R02.2": "helper bodies match their primitive summaries; StackError variants per primitive",
